@@ -1,9 +1,10 @@
 (* C08: the obligations of Properties.v, proved (statement for statement) *)
 From OlaBase Require Import Bytes.
-From C08 Require Import Gen Model Spec ListLemmas SacnTrack SacnProofs SacnThms ArtProofs ArtDistinct SeqInv TextSpec TextThm TextCheck.
+From C08 Require Import Gen Model Spec ListLemmas SacnTrack SacnProofs SacnThms ArtProofs ArtDistinct SeqInv TextSpec TextThm TextCheck WireProofs.
 Local Open Scope N_scope.
 
 Lemma c08_consts_l :
+  E131_PREVIEW_DATA_MASK = 2 ^ 7 /\ E131_STREAM_TERMINATED_MASK = 2 ^ 6 /\ VECTOR_E131_DATA = 2 /\
   EXPIRY_INTERVAL_US = 2500000 /\ SACN_MAX_PRIORITY = 200 /\ SACN_MAX_MERGE_SOURCES = 6 /\
   SEQUENCE_DIFF_THRESHOLD_NEG = 20 /\ ARTNET_MAX_MERGE_SOURCES = 2 /\ ARTNET_MERGE_TIMEOUT = 10 /\
   DMX_UNIVERSE_SIZE = 512.
@@ -159,5 +160,18 @@ Lemma c08_text_checker_l :
      fst (fst (xstep c now keep rx T D p)) = tstep c now T p).
 Proof.
   split; [exact verdict_zero|]. split; [exact verdict_d1|]. split; [exact verdict_d2 | exact xstep_tstep].
+Qed.
+
+Lemma c08_sacn_wire_l :
+  (forall w, p_preview (pkt_of_wire w) = negb (w_rev2 w) && N.testbit (w_opts w) 7) /\
+  (forall w, p_term (pkt_of_wire w) = negb (w_rev2 w) && N.testbit (w_opts w) 6) /\
+  (forall c now st w,
+     handle_wire c now st w = (st, OIgnore) \/
+     handle_wire c now st w = handle c now st (pkt_of_wire w)) /\
+  (forall c now st w,
+     w_rev2 w = false -> N.testbit (w_opts w) 7 = true -> c_ignore_preview c = true ->
+     handle_wire c now st w = (st, OIgnore)).
+Proof.
+  split; [exact wire_preview|]. split; [exact wire_term|]. split; [exact wire_cases | exact wire_ignore_preview].
 Qed.
 
